@@ -50,6 +50,8 @@ enum Op {
     Z80Out(u8, u8),
     /// SNA load (48K machine only) with this border byte
     Snap(u8),
+    /// SZX with an SPCR chunk: (chBorder, chFe)
+    SnapSzx(u8, u8),
     Frame,
 }
 
@@ -61,6 +63,7 @@ impl Op {
             Op::Out(p, v) => format!("out {:04x} {:02x}", p, v),
             Op::Z80Out(n, a) => format!("z80out {:02x} {:02x}", n, a),
             Op::Snap(c) => format!("snap {:02x}", c),
+            Op::SnapSzx(b, fe) => format!("snapszx {:02x} {:02x}", b, fe),
             Op::Frame => "frame".into(),
         }
     }
@@ -73,6 +76,7 @@ impl Op {
             ["out", p, v] => Op::Out(n(p)? as u16, n(v)? as u8),
             ["z80out", p, v] => Op::Z80Out(n(p)? as u8, n(v)? as u8),
             ["snap", c] => Op::Snap(n(c)? as u8),
+            ["snapszx", b, fe] => Op::SnapSzx(n(b)? as u8, n(fe)? as u8),
             ["frame"] => Op::Frame,
             _ => return None,
         })
@@ -399,6 +403,21 @@ impl<'a> Sim<'a> {
                     out.counts.push(("write_region".into(), "snapshot border".into()));
                 }
             }
+            Op::SnapSzx(b, fe) => {
+                let mut f = b"ZXST".to_vec();
+                f.extend_from_slice(&[1, 4, if self.m128 { 2 } else { 1 }, 0]);
+                f.extend_from_slice(b"SPCR");
+                f.extend_from_slice(&8u32.to_le_bytes());
+                f.extend_from_slice(&[*b & 7, 0, 0, *fe, 0, 0, 0, 0]);
+                let f0 = self.e.verif_frames_count();
+                if self.e.load_snapshot(Snapshot::Szx(VAsset::new(f))).is_ok() {
+                    if self.e.verif_frames_count() != f0 {
+                        self.sync_frames();
+                    }
+                    self.model_op(&format!("snapszx {:x} {:x}", b & 7, fe));
+                    out.counts.push(("write_region".into(), "SZX snapshot border".into()));
+                }
+            }
             Op::Frame => {
                 self.finish_frame();
                 self.check_frame(out);
@@ -551,6 +570,9 @@ clock within the line), reported colours"
         });
     }
     cases.push(Case { m128: false, ops: vec![Op::Out(0xFE, 3), Op::Frame, Op::Snap(5), Op::Frame, Op::Frame, Op::SetClk(20000), Op::Out(0xFE, 1), Op::Snap(0x0E), Op::Frame, Op::Frame] });
+    for m128 in [false, true] {
+        cases.push(Case { m128, ops: vec![Op::Out(0xFE, 3), Op::Frame, Op::SnapSzx(2, 0x05), Op::Frame, Op::Frame, Op::SetClk(30000), Op::SnapSzx(6, 0x11), Op::Frame, Op::Frame] });
+    }
     let n_cases = o.n(90, 9000) as usize;
     for i in 0..n_cases {
         let mut r = rng.fork();
@@ -562,6 +584,10 @@ clock within the line), reported colours"
         if !m128 && r.chance(1, 6) {
             let k = r.below(ops.len() as u64) as usize;
             ops.insert(k, Op::Snap(r.u8()));
+        }
+        if r.chance(1, 6) {
+            let k = r.below(ops.len() as u64 + 1) as usize;
+            ops.insert(k, Op::SnapSzx(r.below(8) as u8, r.u8()));
         }
         cases.push(Case { m128, ops });
     }
